@@ -9,9 +9,14 @@ from collections import Counter
 PKG = "vcr/pe"
 HARNESS = ["vcr/pe/zz_verif_c12_test.go"]
 
-REQUIRED = ["pe_total_match", "old_code_panics_array_pattern", "old_code_type_only_filter_matches_any_array",
-            "old_code_panics_pick_min_only", "fact_array_case_guarded", "fact_apply_derefs_guarded", "fact_cfg_fixed",
-            "fact_sr_schema", "fact_mapping_paths"]
+REQUIRED = ["pe_total_match", "pe_total_build", "pe_total_validate", "pe_total_resolve_fields",
+            "match_sound", "filter_sound_and_complete",
+            "forged_mapping_rejected", "surplus_entry_rejected", "forged_entry_rejected", "incomplete_map_rejected",
+            "field_values_faithful", "two_capture_groups_is_error",
+            "old_code_panics_array_pattern", "old_code_type_only_filter_matches_any_array",
+            "old_code_panics_pick_min_only", "old_code_accepts_shadowed_entry",
+            "fact_array_case_guarded", "fact_apply_derefs_guarded", "fact_apply_max_guarded",
+            "fact_resolve_rejects_duplicate_ids", "fact_cfg_fixed", "fact_sr_schema", "fact_mapping_paths"]
 
 
 # ---------------------------------------------------------------- independent reference matcher (DIF PE semantics)
